@@ -84,6 +84,9 @@ connect(int fd, const struct sockaddr *addr, socklen_t len)
     return 0;
 }
 
+char verif_peer_path[8];
+int verif_peer_len = -1;
+
 int
 accept(int fd, struct sockaddr *addr, socklen_t *len)
 {
@@ -92,11 +95,22 @@ accept(int fd, struct sockaddr *addr, socklen_t *len)
         errno = ECONNABORTED;
         return -1;
     }
+    /* as the kernel does for a UNIX-domain peer: the family, then the k bytes of the peer's path (none for an
+     * unnamed peer) WITHOUT a terminator, *len = what was written; nothing else in the caller's block is touched */
     if (addr && len && *len >= sizeof(sa_family_t)) {
+        int k = (int) V_RANGE(0, 3), i;
+
         addr->sa_family = AF_UNIX;
-        if (*len > sizeof(sa_family_t)) {
-            addr->sa_data[0] = 0;
+        if ((size_t) k > *len - sizeof(sa_family_t)) {
+            k = (int) (*len - sizeof(sa_family_t));
         }
+        for (i = 0; i < k; i++) {
+            verif_peer_path[i] = (char) V_RANGE('a', 'z');
+            addr->sa_data[i] = verif_peer_path[i];
+        }
+        verif_peer_path[k] = 0;
+        verif_peer_len = k;
+        *len = (socklen_t) (sizeof(sa_family_t) + (size_t) k);
     }
     return fd_new();
 }
